@@ -151,7 +151,7 @@ LEVEL_TEXT["C11"] = ("Seeded exploration of scripted playlist histories and netw
 NOT_APPLICABLE.pop("C11", None)
 
 META["C12"] = {"level": "fault_enumeration",
-   "rule": "fault-sweep profile: for each sampled scenario (stub origin: container, mode, renditions, byte ranges, latencies) one fault is placed at every request index 0..39 in turn for each of the kinds status != 200, transport error, stalled body and never-answered request (both followed by a user Close), plus an OnTracks error: 200 runs per scenario. close-sweep profile: for each sampled scenario Close is placed at every scheduler event 1..200 in turn (1-3 Close calls, optionally racing an injected fault; positions past the end close after EOS). Non-trivial = the fault fired / a Close was placed; distinct = distinct signatures of scenario + position + observations.",
+   "rule": "fault-sweep profile: for each sampled scenario (stub origin: container, mode, renditions, byte ranges, latencies) one fault is placed at every request index 0..39 in turn for each of the kinds status != 200, transport error, stalled body and never-answered request (both followed by a user Close), plus an OnTracks error: 200 runs per scenario. close-sweep profile: for each sampled scenario Close is placed at every scheduler event 1..200 in turn, or (every second scenario) at every point 0..199 of a time grid of 5, 23, 100 or 500 ms, (1-3 Close calls, optionally racing an injected fault; positions past the end close after EOS). Non-trivial = the fault fired / a Close was placed; distinct = distinct signatures of scenario + position + observations.",
    "real": CLI_REAL, "stub": CLI_STUB,
    "assumptions": CLI_ASSUME + ["scenarios (origins, latencies) are sampled; within a scenario the fault position and the Close position are enumerated exhaustively up to the stated bounds (40 requests, 200 events)",
                                 "goroutine leaks are decided from runtime.Stack of all goroutines filtered to gohlslib client frames, at rest, after Wait yielded"]}
